@@ -275,7 +275,9 @@ delivery model of `Model/Parser` (pieces known in advance) gives, so `parse_chun
 transfers to the call-by-call protocol. Proved: `stepwise_is_run_partial` below (status and
 expressions, for every parser state, every chunking, every fuel `F ≥ fuelFor cs`, whenever the parse
 of the text is not an error) on top of `annotated_parser_is_the_parser`, `suspended_iff_more`,
-`suspended_program_is_rest_of_run` and `run_fuel_mono`. Missing: see `stepwise_is_run_partial`. -/
+`suspended_program_is_rest_of_run` and `run_fuel_mono`; `stepwise_is_run_until_done` (any outcome, no
+`done` before the last call); `stepwise_is_run_of_fuel` (`FuelIsEnough → StepwiseIsRun`). Missing:
+`FuelIsEnough` itself — see `stepwise_is_run_partial`. -/
 def StepwiseIsRun : Prop :=
   ∀ (p : PSt) (cs : List (List Char)),
     let r := (p.parseBy (fuelFor cs) .resetAdd cs).1
@@ -330,9 +332,10 @@ with pieces still to come at the first delivery, `first_step`, `chunk_trace`).
 What is missing from `StepwiseIsRun`: parses that END IN AN ERROR after some call answered `done`.
 There the statement needs "the fuel of the delivery model is enough" (`4 * length + 16` against at
 most 3 per token + 1 per top-level expression), because fuel exhaustion and a syntax error are one
-outcome in the model (`FuelIsEnough` below, stated, not proved). Without a `done` before the error it
-is proved for status and expressions (`stepwise_is_run_until_done`). The driver still computes both
-models on every `parse h` op (`MODELS-DISAGREE`). -/
+outcome in the model (`FuelIsEnough` below, stated, not proved; `stepwise_is_run_of_fuel` proves
+`FuelIsEnough → StepwiseIsRun`). Without a `done` before the error it is proved
+(`stepwise_is_run_until_done`). The driver still computes both models on every `parse h` op
+(`MODELS-DISAGREE`). -/
 theorem stepwise_is_run_partial (p : PSt) (cs : List (List Char)) (F : Nat) (hF : fuelFor cs ≤ F)
     (hne : (parseChunks cs).status ≠ .err) :
     (p.parseBy F .resetAdd cs).1.status = (parseChunks cs).status ∧
@@ -414,17 +417,16 @@ example : ∀ G, fuelFor threePieces ≤ G → run (topLoop G) (initState LexSta
 /-- **`stepwise_is_run_until_done`**: with the fuel of the delivery model, as long as no
 `ParseTokens` call before the last answers `done` (every piece but the last leaves the text
 unfinished: the coroutine is resumed, no new `ParsingIter`, so no new fuel), the call-by-call
-protocol gives the status and the expressions of `parseChunks` WHATEVER the outcome — also when the
-parse ends in an error (a syntax error in any piece, or the fuel of the model). -/
+protocol gives the status, the expressions and the trace of `parseChunks` WHATEVER the outcome — also
+when the parse ends in an error (a syntax error in any piece, or the fuel of the model).
+(`Proofs/StepwiseFuel.stages`: the fuel `G` with which the delivery model passes through the stages of
+the protocol changes only at a `done`.) -/
 theorem stepwise_is_run_until_done (p : PSt) (cs : List (List Char))
     (hnd : Status.done ∉ (p.parseBy (fuelFor cs) .resetAdd cs).1.trace) :
     (p.parseBy (fuelFor cs) .resetAdd cs).1.status = (parseChunks cs).status ∧
-    (p.parseBy (fuelFor cs) .resetAdd cs).1.exprs = (parseChunks cs).exprs := by
-  have hst := status_of_run LexState.init cs
-  have hex := (parseChunksFrom_eq_abstract LexState.init cs).2
-  obtain ⟨a1, a2⟩ := parseBy_nodone (fuelFor cs) p cs _ rfl hnd
-  unfold parseChunks
-  exact ⟨a1.trans hst.symm, a2.trans hex.symm⟩
+    (p.parseBy (fuelFor cs) .resetAdd cs).1.exprs = (parseChunks cs).exprs ∧
+    (p.parseBy (fuelFor cs) .resetAdd cs).1.trace = (parseChunks cs).trace :=
+  stepwise_nodone cs p hnd
 
 /-- three pieces, the first two unfinished, a syntax error in the third: `(a [b )` — `)` where `]` is due -/
 def threeBad : List (List Char) := ["(a ".toList, "[b ".toList, ")".toList]
